@@ -144,6 +144,10 @@ func (s TxSpec) Build() *types.Transaction {
 		}
 		data, _ := json.Marshal(m)
 		tx = RawTx(typ, src, "", s.Nonce, string(data), "", s.Salt)
+	case "node":
+		// "become a node owner": moves the sender's miner to a contract account created through the main
+		// node contract (absent on the dev chain: the executor debits 10 tokens and then fails)
+		tx = RawTx(types.TransactionTypeOperatorNode, src, "", s.Nonce, "", "", s.Salt)
 	case "refund":
 		data, _ := json.Marshal(map[string]string{"Amount": s.Amount, "MinerId": common.ToHex(MinerID(s.Miner))})
 		tx = RawTx(types.TransactionTypeMinerRefund, src, "", s.Nonce, string(data), "", s.Salt)
